@@ -43,18 +43,29 @@ impl TraceOut {
 /// Run `f`, turning a panic of the code under test into data.
 pub fn guarded<T>(f: impl FnOnce() -> T) -> Result<T, String> {
     panic::catch_unwind(AssertUnwindSafe(f)).map_err(|e| {
-        if let Some(s) = e.downcast_ref::<&str>() {
+        let msg = if let Some(s) = e.downcast_ref::<&str>() {
             s.to_string()
         } else if let Some(s) = e.downcast_ref::<String>() {
             s.clone()
         } else {
             "panic".to_string()
+        };
+        // where it happened (library or harness), recorded by the hook
+        let loc = PANIC_LOC.with(|l| l.borrow_mut().take());
+        match loc {
+            Some(l) if !msg.contains(" [at ") => format!("{msg} [at {l}]"),
+            _ => msg,
         }
     })
 }
 
+thread_local! { static PANIC_LOC: std::cell::RefCell<Option<String>> = const { std::cell::RefCell::new(None) }; }
+
 pub fn quiet_panics() {
-    panic::set_hook(Box::new(|_| {}));
+    panic::set_hook(Box::new(|info| {
+        let loc = info.location().map(|l| format!("{}:{}", l.file().rsplit("/src/").next().unwrap_or(l.file()), l.line()));
+        PANIC_LOC.with(|p| *p.borrow_mut() = loc);
+    }));
 }
 
 #[derive(Default)]
